@@ -49,14 +49,19 @@ Proof.
   - symmetry. now apply H.
 Qed.
 
+Lemma lo_bound_nil_or (x : key) k :
+  match go_append None x with Some l => lex_leb l k | None => true end = lex_leb x k.
+Proof. destruct x; cbn [go_append]; auto. symmetry. apply lex_leb_nil. Qed.
+
 Lemma ldb_range_spec P S k : wf_bytes (ob P) = true -> wf_bytes k = true ->
   in_bounds (fst (ldb_range P S)) (snd (ldb_range P S)) k = in_iter (ob P) (ob S) k.
 Proof.
   intros Wp Wk. unfold ldb_range, in_bounds. cbn [fst snd].
   rewrite bytes_prefix_limit_succ.
   rewrite <- (range_is_prefix_and_start (ob P) (ob S) k Wp Wk). f_equal.
-  destruct P as [p|]; cbn [go_append ob]; auto.
-  destruct (ob S) as [|x s]; cbn [app]; auto. symmetry. apply lex_leb_nil.
+  destruct (ob P) as [|c p]; cbn [go_append app].
+  - apply lo_bound_nil_or.
+  - reflexivity.
 Qed.
 
 Lemma pbl_range_spec P S k : wf_bytes (ob P) = true -> wf_bytes k = true ->
@@ -67,12 +72,23 @@ Lemma pbl_range_spec P S k : wf_bytes (ob P) = true -> wf_bytes k = true ->
 Proof.
   intros Wp Wk. unfold pbl_range.
   destruct P as [p|].
-  - cbn [fst snd go_append ob]. unfold in_bounds. rewrite bytes_prefix_limit_succ.
+  - cbn [fst snd go_append ob app]. unfold in_bounds. rewrite bytes_prefix_limit_succ.
     apply range_is_prefix_and_start; auto.
   - destruct S as [s|]; cbn [fst snd go_append ob app]; unfold in_iter, in_bounds; cbn [has_prefix app andb].
     + rewrite ?andb_true_r; reflexivity.
     + symmetry. apply lex_leb_nil.
 Qed.
+
+(* the repaired glue leaves the caller's prefix buffer alone; the pinned tree did not *)
+Theorem range_keeps_caller_buffer prefix start : caller_buffer_after_range prefix start = g_arr prefix.
+Proof. reflexivity. Qed.
+
+Example range_old_refuted :   (* NewIterator(buf[:2], "q") on buf = "abXYZ" left "abqYZ" *)
+  caller_buffer_after_range_old {| g_arr := [97; 98; 88; 89; 90]; g_len := 2 |} [113]
+  = [97; 98; 113; 89; 90]
+  /\ caller_buffer_after_range_old {| g_arr := [97; 98; 88; 89; 90]; g_len := 2 |} [113]
+     <> g_arr {| g_arr := [97; 98; 88; 89; 90]; g_len := 2 |}.
+Proof. split; [vm_compute; reflexivity | vm_compute; discriminate]. Qed.
 
 (* ---------- iterator protocols ---------- *)
 
